@@ -106,12 +106,6 @@ func (in *Interp) goPanicf(fr *frame, format string, a ...interface{}) {
 	panic(&goPanic{val: IfaceV{T: types.Typ[types.String], V: StrV{S: msg}}, msg: msg, fn: name})
 }
 
-// usePoison is called when a poisoned value is needed for a real decision.
-func (in *Interp) checkPoison(v Value) (Poison, bool) {
-	p, ok := v.(Poison)
-	return p, ok
-}
-
 // ---------- globals and lazy package initialisation ----------
 
 func (in *Interp) global(g *ssa.Global) *Value {
@@ -1183,7 +1177,10 @@ func (in *Interp) sliceOp(fr *frame, x *ssa.Slice) Value {
 		if s.E == nil {
 			return SliceV{}
 		}
-		return SliceV{E: s.E[lo:hi:mx]}
+		if s.Grown && (hi > len(s.E) || (x.Max != nil && mx > len(s.E))) {
+			return in.notEncodable("reslicing beyond len of a slice whose capacity was chosen by append growth (implementation-defined) in %s", fr.fn)
+		}
+		return SliceV{E: s.E[lo:hi:mx], Grown: s.Grown}
 	case PtrV:
 		if s.Sym != nil {
 			return in.notEncodable("slicing through a symbolic-index pointer")
